@@ -133,5 +133,64 @@ theorem endsMd_keyOfFile (dirs : List Str) (stem : Str) (hstem : endsMd stem = f
   | nil => exact hstem
   | cons d ds => simp only [endsMd_append_slash, hstem]
 
+/-! ## URL dot-segment removal agrees with `join_normalized` below the library root -/
+
+theorem parent_mem_travStep {st : List Comp} (c : Comp) (h : Comp.parent ∈ st) :
+    Comp.parent ∈ travStep st c := by
+  cases c with
+  | cur => exact h
+  | normal n => exact List.mem_cons_of_mem _ h
+  | parent =>
+    cases st with
+    | nil => cases h
+    | cons x rest =>
+      cases x with
+      | parent => exact List.mem_cons_self ..
+      | cur =>
+        simp only [travStep]
+        rcases List.mem_cons.1 h with h | h
+        · cases h
+        · exact h
+      | normal n =>
+        simp only [travStep]
+        rcases List.mem_cons.1 h with h | h
+        · cases h
+        · exact h
+
+theorem parent_mem_trav : ∀ (cs : List Comp) {st : List Comp}, Comp.parent ∈ st → Comp.parent ∈ trav st cs
+  | [], _, h => h
+  | c :: cs, st, h => by
+    unfold trav
+    rw [List.foldl_cons]
+    exact parent_mem_trav cs (parent_mem_travStep c h)
+
+/-- the two resolutions walk in step as long as `..` never climbs above what is on the stack -/
+theorem urlTrav_eq (R : List Str) : ∀ (u st : List Comp),
+    (∀ c ∈ st, ∃ n, c = Comp.normal n) → Comp.parent ∉ trav st u →
+    u.foldl urlStep (st.map compStr ++ R) = (trav st u).map compStr ++ R
+  | [], _, _, _ => rfl
+  | c :: u, st, hst, hno => by
+    have hno' : Comp.parent ∉ trav (travStep st c) u := by
+      unfold trav at hno ⊢
+      rwa [List.foldl_cons] at hno
+    have htrav : trav st (c :: u) = trav (travStep st c) u := by
+      unfold trav
+      rw [List.foldl_cons]
+    rw [List.foldl_cons, htrav]
+    cases c with
+    | cur => exact urlTrav_eq R u st hst hno'
+    | normal n =>
+      have := urlTrav_eq R u (Comp.normal n :: st)
+        (by intro c hc; rcases List.mem_cons.1 hc with rfl | hc; exact ⟨n, rfl⟩; exact hst c hc) hno'
+      simpa [urlStep, travStep, compStr] using this
+    | parent =>
+      cases st with
+      | nil =>
+        exact absurd (parent_mem_trav u (st := [Comp.parent]) (List.mem_cons_self ..)) hno'
+      | cons x rest =>
+        obtain ⟨n, rfl⟩ := hst x (List.mem_cons_self ..)
+        have := urlTrav_eq R u rest (fun c hc => hst c (List.mem_cons_of_mem _ hc)) hno'
+        simpa [urlStep, travStep, compStr] using this
+
 end Uri
 end Iwe
